@@ -42,6 +42,46 @@ def scalar(width, sgn=False):
     return dict(inputs=[("value", v), ("offset", off, range(width + 1)), ("placeholder", ph)], outs=outs, ref=ref)
 
 
+def scalar_narrow(width):
+    """offset carried by a signal that is only as wide as needed for 0..width-1 (e.g. 8-bit value, 3-bit shift amount)"""
+    from transactron.utils.amaranth_ext import shifter as S
+    v = Signal(width)
+    off = Signal(range(width))
+    ph = Signal(1)
+
+    def ref(vals):
+        x, o, p = vals
+        b = [(x >> i) & 1 for i in range(width)]
+        return (_int(_shl(b, width, o, [p] * width)), _int(_shr(b, width, o, [p] * width)),
+                _int(_shl(b, width, o, b)), _int(_shr(b, width, o, b)))
+
+    outs = [("shift_left", S.shift_left(v, off, ph)), ("shift_right", S.shift_right(v, off, ph)),
+            ("rotate_left", S.rotate_left(v, off)), ("rotate_right", S.rotate_right(v, off))]
+    return dict(inputs=[("value", v), ("offset", off, range(width)), ("placeholder", ph)], outs=outs, ref=ref)
+
+
+def scalar_const(width):
+    """every constant (Python int) offset 0..width"""
+    from transactron.utils.amaranth_ext import shifter as S
+    v = Signal(width)
+    ph = Signal(1)
+    outs = []
+    for o in range(width + 1):
+        outs += [(f"shift_left({o})", S.shift_left(v, o, ph)), (f"shift_right({o})", S.shift_right(v, o, ph)),
+                 (f"rotate_left({o})", S.rotate_left(v, o)), (f"rotate_right({o})", S.rotate_right(v, o))]
+
+    def ref(vals):
+        x, p = vals
+        b = [(x >> i) & 1 for i in range(width)]
+        out = []
+        for o in range(width + 1):
+            out += [_int(_shl(b, width, o, [p] * width)), _int(_shr(b, width, o, [p] * width)),
+                    _int(_shl(b, width, o, b)), _int(_shr(b, width, o, b))]
+        return tuple(out)
+
+    return dict(inputs=[("value", v), ("placeholder", ph)], outs=outs, ref=ref)
+
+
 def generic(width):
     from transactron.utils.amaranth_ext import shifter as S
     a, b = Signal(width), Signal(width)
@@ -105,6 +145,9 @@ def jobs(tier):
     wmax = 6 if tier == "quick" else 9
     for w in range(1, wmax + 1):
         js.append(COMB("checks.c37", "scalar", {"width": w}))
+        js.append(COMB("checks.c37", "scalar_const", {"width": w}))
+        if w >= 2:
+            js.append(COMB("checks.c37", "scalar_narrow", {"width": w}))
         if w <= 5:
             js.append(COMB("checks.c37", "scalar", {"width": w, "sgn": True}))
         if w <= (5 if tier == "quick" else 6):
